@@ -143,37 +143,66 @@ theorem foldl_odSet_spec (xs d : List NA) (hd : (d.map (·.name)).Nodup) :
 
 /-! ### one source anchor -/
 
-/-- how the fields of a NamedAnchor relate to its name -/
-structure NAShape (a : NA) : Prop where
-  mark : a.isMark = true → a.name.toList = '_' :: a.key.toList ∧ plainKey a.key.toList = true ∧ a.number = none
-  base : a.isMark = false → a.number = none → a.name.toList = a.key.toList ∧ HeadAlpha a.key.toList
+/-- how the fields of a NamedAnchor relate to the (effective) name `nm` -/
+structure NAShapeOn (nm : List Char) (a : NA) : Prop where
+  mark : a.isMark = true → nm = '_' :: a.key.toList ∧ plainKey a.key.toList = true ∧ a.number = none
+  base : a.isMark = false → a.number = none → nm = a.key.toList ∧ HeadAlpha a.key.toList
   lig : a.isMark = false → ∀ n, a.number = some n →
-    1 ≤ n ∧ isLigName a.key.toList n a.name.toList = true ∧ (a.key.toList = [] ∨ HeadAlpha a.key.toList)
+    1 ≤ n ∧ isLigName a.key.toList n nm = true ∧ (a.key.toList = [] ∨ HeadAlpha a.key.toList)
+
+/-- … for a non-contextual anchor: its name -/
+abbrev NAShape (a : NA) : Prop := NAShapeOn a.name.toList a
 
 theorem namedAnchor_some {q : Q} {s : SrcAnchor} {a : NA} (h : namedAnchor q s = .ok (some a)) :
-    a.name = s.name ∧ a.x = quantize q s.x ∧ a.y = quantize q s.y ∧ NAShape a := by
+    a.name = s.name ∧ a.x = quantize q s.x ∧ a.y = quantize q s.y ∧ NAShapeOn (effName a.name.toList) a ∧
+    (a.ctx = none → (a.name.toList.head? == some '*') = false) ∧
+    (∀ c, a.ctx = some c → (a.name.toList.head? == some '*') = true ∧ s.lib = some c) := by
   unfold namedAnchor at h
   split at h
   · simp at h
-  · cases hp : parseAnchor s.name.toList with
-    | error e => rw [hp] at h; simp at h
-    | ok p =>
-      rw [hp] at h; simp only at h
-      split at h
-      · simp at h
-      · rename_i hc
-        simp only [Bool.or_eq_true, not_or, Bool.not_eq_true] at hc
-        simp only [Except.ok.injEq, Option.some.injEq] at h; subst h
-        obtain ⟨s1, s2, s3⟩ := parseAnchor_shape hp hc.1 hc.2
-        refine ⟨rfl, rfl, rfl, ⟨?_, ?_, ?_⟩⟩ <;> simp only [String.toList_ofList]
-        · exact s1
-        · exact s2
-        · exact s3
+  · split at h
+    · simp at h
+    · cases hp : parseAnchor s.name.toList with
+      | error e => rw [hp] at h; simp at h
+      | ok p =>
+        rw [hp] at h; simp only at h
+        split at h
+        · simp at h
+        · rename_i hc
+          simp only [Bool.or_eq_true, not_or, Bool.not_eq_true, Bool.and_eq_true, not_and] at hc
+          simp only [Except.ok.injEq, Option.some.injEq] at h; subst h
+          obtain ⟨s0, s1, s2, s3⟩ := parseAnchor_shapeX hp hc.2
+          refine ⟨rfl, rfl, rfl, ⟨?_, ?_, ?_⟩, ?_, ?_⟩ <;> simp only [String.toList_ofList]
+          · exact s1
+          · exact s2
+          · exact s3
+          · intro hnone
+            cases hpc : p.ctx with
+            | false => rw [← s0, hpc]
+            | true =>
+              rw [hpc] at hnone
+              simp only [if_true] at hnone
+              have := hc.1 hpc
+              rw [hnone] at this; simp at this
+          · intro c hsome
+            cases hpc : p.ctx with
+            | false => rw [hpc] at hsome; simp at hsome
+            | true =>
+              rw [hpc] at hsome
+              simp only [if_true] at hsome
+              exact ⟨by rw [← s0, hpc], hsome⟩
 
-theorem namedAnchor_of_parse {q : Q} {s : SrcAnchor} {p : Parsed} (hne : s.name ≠ "")
+theorem namedAnchor_plain_shape {q : Q} {s : SrcAnchor} {a : NA} (h : namedAnchor q s = .ok (some a))
+    (hc : a.ctx = none) : NAShape a := by
+  obtain ⟨_, _, _, sh, h1, _⟩ := namedAnchor_some h
+  have := effName_plain (h1 hc)
+  unfold NAShape
+  rw [← this]; exact sh
+
+theorem namedAnchor_of_parse {q : Q} {s : SrcAnchor} {p : Parsed} (hne : s.name ≠ "") (hid : s.idNoLib = false)
     (hp : parseAnchor s.name.toList = .ok p) (hc : p.ctx = false) (hi : keyIgnorable p.key = false) :
-    namedAnchor q s = .ok (some ⟨s.name, quantize q s.x, quantize q s.y, p.isMark, String.ofList p.key, p.number⟩) := by
-  simp [namedAnchor, hne, hp, hc, hi]
+    namedAnchor q s = .ok (some ⟨s.name, quantize q s.x, quantize q s.y, p.isMark, String.ofList p.key, p.number, none⟩) := by
+  simp [namedAnchor, hne, hid, hp, hc, hi]
 
 /-! ### one glyph -/
 theorem glyphAnchors_ok {q : Q} {srcs : List SrcAnchor} {as : List NA} (h : glyphAnchors q srcs = .ok as) :
